@@ -59,6 +59,8 @@ pub struct Cfg {
     pub accts: Vec<usize>,
     pub ticks: Vec<u64>,
     pub privileged: bool,
+    /// give the anonymous account an expiry in the past (it is then an account outside its window)
+    pub anon_expired: bool,
 }
 
 pub struct Auth {
@@ -113,6 +115,12 @@ impl Auth {
         if let Err(e) = r {
             die("validity windows", e);
         }
+        if cfg.anon_expired {
+            let r = idm.write(ct, |w| w.qs_write.internal_modify_uuid(UUID_ANONYMOUS, &ModifyList::new_purge_and_set(Attribute::AccountExpire, Value::new_datetime_epoch(srv::t(50)))));
+            if let Err(e) = r {
+                die("anonymous validity window", e);
+            }
+        }
         Auth { idm, cfg, now: 1000, sid: None, started: 0, m: M::None, totp, fails: [(0, 0); 5], backup_spent: false, pending: Vec::new(), successes: 0, tainted: false }
     }
 
@@ -143,7 +151,7 @@ impl Auth {
 
     /// Is `k`, presented now at `stage` of `mech` for `acct`, a correct factor? And does it complete the mechanism?
     fn judge(&self, acct: usize, mech: usize, stage: u8, k: CredK) -> (bool, bool) {
-        let valid_acct = acct <= 2;
+        let valid_acct = acct <= 1 || (acct == 2 && !self.cfg.anon_expired);
         let (ok, last) = match (MECHS[mech].clone(), stage, k) {
             (AuthMech::Anonymous, 0, CredK::Anonymous) => (acct == 2, true),
             (AuthMech::Password, 0, CredK::PwRight) => (acct != 2, true),
